@@ -8,6 +8,7 @@ import (
 	"os"
 	"path/filepath"
 	"regexp"
+	"sort"
 	"strconv"
 	"strings"
 
@@ -71,12 +72,8 @@ func parserRequestURL(c *Client, req *Request) error {
 	}
 
 	// Set path parameters from the request and client.
-	req.path.VisitAll(func(key, val string) {
-		uri = strings.ReplaceAll(uri, ":"+key, val)
-	})
-	c.path.VisitAll(func(key, val string) {
-		uri = strings.ReplaceAll(uri, ":"+key, val)
-	})
+	uri = replacePathParams(uri, req.path)
+	uri = replacePathParams(uri, c.path)
 
 	// Set the URI in the raw request.
 	req.RawRequest.SetRequestURI(uri)
@@ -100,6 +97,29 @@ func parserRequestURL(c *Client, req *Request) error {
 	req.RawRequest.URI().SetHash(hashSplit[1])
 
 	return nil
+}
+
+// replacePathParams substitutes ":name" placeholders. The names are applied longest first (ties in
+// lexical order), so that the result does not depend on map iteration order and a name that is a
+// prefix of another one (":id" / ":idx") cannot clobber it.
+func replacePathParams(uri string, p *PathParam) string {
+	if p == nil {
+		return uri
+	}
+	keys := make([]string, 0, len(*p))
+	p.VisitAll(func(key, _ string) {
+		keys = append(keys, key)
+	})
+	sort.Slice(keys, func(i, j int) bool {
+		if len(keys[i]) != len(keys[j]) {
+			return len(keys[i]) > len(keys[j])
+		}
+		return keys[i] < keys[j]
+	})
+	for _, key := range keys {
+		uri = strings.ReplaceAll(uri, ":"+key, (*p)[key])
+	}
+	return uri
 }
 
 // parserRequestHeader merges client and request headers, and sets headers automatically based on the request data.
